@@ -96,6 +96,8 @@ POOL = [
     ("opplus", "N", 'w.reg(lx.get_operator(u8"+"))', {}),
     ("vop", "D V", 'w.reg(*w.unit.global_scope()->make_var(w.as<ipr::Name>(opplus), lx.char_type()))', {"ty": 3, "nm": "opplus"}),
     ("fd1", "FD", 'w.reg(*w.unit.global_region()->declare_fun(w.as<ipr::Name>(idB), w.as<ipr::Function>(fn2)))', {"nm": "idB"}),
+    # a redeclaration (same name and type as v1): an operand that is not the master of its declaration set
+    ("v1r", "D V", 'w.reg(*w.unit.global_scope()->make_var(w.as<ipr::Name>(idA), lx.int_type()))', {"ty": 12, "nm": "idA"}),
 ]
 POOL_ID = {name: NCONST + 1 + k for k, (name, _, _, _) in enumerate(POOL)}
 # candidates per sort: [first, second]; constants for types and small integers for enumerations
